@@ -165,8 +165,8 @@ def witness_negative_weight(ctx: Ctx):
     for case in cases:
         ok1, info = X.property_holds(case)
         if not ok1 and ok:
-            ctx.violation("match_weight_thresholds containing a negative weight: the detailed output cannot be produced "
-                          "(column alias cluster_mw_-1 is not valid SQL), so no partition is returned for any threshold",
+            ctx.violation("match_weight_thresholds containing a negative weight (unsorted list): the detailed output raises or a "
+                          "column cluster_mw_<w> does not hold the clustering at weight w (see `implementation`)",
                           {"case": case, "implementation": info,
                            "specification": "one column per threshold with the component minima at 2^w/(1+2^w)"},
                           X.features_of(case))
